@@ -32,7 +32,11 @@ FP_SPEC = {"cloudsync/sync/state.py": [
     "SyncState._change_path", "SyncState._update_kids", "SyncState._change_oid", "SyncState.get_kids", "SyncState.get_all",
     "SyncState.lookup_oid", "SyncState.lookup_path", "SyncState.storage_commit", "SyncState._storage_update",
     "SyncState.update", "SyncState.update_entry", "SyncState.mark_changed"],
-    "cloudsync/types.py": ["OType", "IgnoreReason"]}
+    "cloudsync/types.py": ["OType", "IgnoreReason"],
+    "cloudsync/event.py": ["EventManager._process_event", "EventManager._do_unsafe", "EventManager._do_walk_if_needed",
+                           "EventManager._do_first_init", "EventManager.do", "EventManager.queue"],
+    "cloudsync/cs.py": ["CloudSync.walk"],
+    "cloudsync/sync/manager.py": ["SyncManager.do", "SyncManager._sync_one_entry"]}
 
 # ------------------------------------------------------------------------------------------------ wire encoding
 
@@ -1198,20 +1202,16 @@ def fields_match(live_e, got):
     return got._ignored == live_e._ignored
 
 
-def reload_check(R, H):
-    """after an exact commit (`reload_equiv_entries`, `reload_none_key_absent`, `reload_pending_spec`, loader spec):
-    the state rebuilt from storage has one entry per live non-trash entry; under a string id it finds the reloaded image
-    of a live entry carrying that id and every live entry is found; under None it finds nothing; `lookup_path` returns
-    exactly the ids of the live entries at that path; pending = rows with a change stamp on a side that has an id"""
-    H.capture = []
-    try:
-        st2 = R.SyncState(R.provs, H.storage, TAG)
-    finally:
-        loaded, H.capture = H.capture, None
-    live = [e for e in H.ents if not e.is_trash]
+def reload_compare(R, live_ents, st2, loaded):
+    """the reload statements (`reload_equiv_entries`, `reload_none_key_absent`, `reload_pending_spec`, loader spec) for a state
+    `st2` rebuilt from exact storage, whose loader created the entries `loaded`, against the live entries: one rebuilt
+    entry per live non-trash entry; under a string id the rebuilt state finds the reloaded image of a live entry carrying
+    that id and every live entry is found; under None nothing; `lookup_path` returns exactly the ids of the live entries at
+    that path; pending = rows with a change stamp on a side that has an id"""
+    live = [e for e in live_ents if not e.is_trash]
     if sorted(e.storage_id for e in loaded) != sorted(x.storage_id for x in live):
-        return "reload built entries for rows %r, the live non-trash entries have rows %r" % (
-            sorted(e.storage_id for e in loaded), sorted(x.storage_id for x in live))
+        return "a state rebuilt from storage has entries for the rows %r, the live non-trash entries have the rows %r" % (
+            sorted(e.storage_id for e in loaded), sorted((x.storage_id is None, x.storage_id) for x in live))
     for sd in (0, 1):
         name = ("local", "remote")[sd]
         if st2.lookup_oid(sd, None) is not None:
@@ -1248,39 +1248,24 @@ def reload_check(R, H):
     return None
 
 
-class EngineChecker:
-    """whole-engine oracle: after every successful `storage_commit` of a CloudSync over two mock providers the rows
-    decode exactly to the live non-trash entries"""
-    def __init__(self, R):
-        self.R = R
-        self.ents = {}
-        self.violation = None
-        self.commits = 0
-
-    def __enter__(self):
-        R, C = self.R, self
-        o_init, o_commit = R.SyncEntry.__init__, R.SyncState.storage_commit
-        self.saved = (o_init, o_commit)
-
-        def init(s, parent, *a, **kw):
-            o_init(s, parent, *a, **kw)
-            C.ents.setdefault(id(parent), []).append(s)
-
-        def commit(st):
-            o_commit(st)
-            C.commits += 1
-            if st._storage is not None and C.violation is None:
-                bad = rows_vs_live_engine(R, st, C.ents.get(id(st), []))
-                if bad:
-                    C.violation = bad
-        R.SyncEntry.__init__, R.SyncState.storage_commit = init, commit
-        return self
-
-    def __exit__(self, *a):
-        self.R.SyncEntry.__init__, self.R.SyncState.storage_commit = self.saved
+def reload_check(R, H):
+    """after an exact commit on the harnessed state: rebuild a state from storage and compare (see reload_compare)"""
+    H.capture = []
+    try:
+        st2 = R.SyncState(R.provs, H.storage, TAG)
+    finally:
+        loaded, H.capture = H.capture, None
+    return reload_compare(R, H.ents, st2, loaded)
 
 
 def rows_vs_live_engine(R, st, ents):
+    """rows of the tag vs the live entries of an engine's state.  `priority` is left out: it is not in the property's field
+    list and `deserialize` does not restore it (`priority_not_restored`), so after a restart a row keeps the old value
+    until the entry is dirtied again."""
+    def strip(d):
+        d = dict(d)
+        d.pop("priority", None)
+        return d
     rows = {k: R.unpack(v) for k, v in st._storage.read_all(st._tag).items()}
     owners = {}
     for i, e in enumerate(ents):
@@ -1290,18 +1275,17 @@ def rows_vs_live_engine(R, st, ents):
                 return "a trash entry keeps the storage id %r" % (sid,)
             continue
         if sid is None or sid not in rows:
-            return "live entry has no row: %s" % enc_entry(e)[:300]
+            return "a live entry has no row in storage: %s" % describe_entry(e)
         want = R.unpack(e.serialize())
-        if enc_val(rows[sid]) != enc_val(want):
+        if enc_val(strip(rows[sid])) != enc_val(strip(want)):
             diff = []
             for s in ("side0", "side1"):
                 for k in want[s]:
                     if enc_val(rows[sid][s].get(k)) != enc_val(want[s][k]):
                         diff.append("%s.%s: stored %r, live %r" % (s, k, rows[sid][s].get(k), want[s][k]))
-            for k in ("ignored", "priority"):
-                if enc_val(rows[sid].get(k)) != enc_val(want[k]):
-                    diff.append("%s: stored %r, live %r" % (k, rows[sid].get(k), want[k]))
-            return "row %r differs from the live entry: %s" % (sid, "; ".join(diff)[:600])
+            if enc_val(rows[sid].get("ignored")) != enc_val(want["ignored"]):
+                diff.append("ignored: stored %r, live %r" % (rows[sid].get("ignored"), want["ignored"]))
+            return "row %r differs from the live entry %s: %s" % (sid, describe_entry(e), "; ".join(diff)[:600])
         if sid in owners:
             return "two live entries share row %r" % (sid,)
         owners[sid] = i
@@ -1311,89 +1295,362 @@ def rows_vs_live_engine(R, st, ents):
     return None
 
 
-def oracle_engine(R, rng, nhist):
-    import io
-    from cloudsync import CloudSync
-    from cloudsync.exceptions import CloudException
-    FILE = R.OType("file")
-    with EngineChecker(R) as C:
-        for _ in range(nhist):
-            fl = rng.choice([(False, False), (True, False), (False, True), (True, True)])
-            lp = R.MockProvider(oid_is_path=fl[0], case_sensitive=True)
-            rp = R.MockProvider(oid_is_path=fl[1], case_sensitive=True)
-            lp.connect({"key": "val"})
-            rp.connect({"key": "val"})
-            cs = CloudSync((lp, rp), ("/local", "/remote"), storage=R.MockStorage({}), sleep=None)
-            lp.mkdir("/local")
-            rp.mkdir("/remote")
-            hist = []
-            names = ["a", "b", "c", "d"]
+def describe_entry(e):
+    g = lambda s, f: object.__getattribute__(e[s], f)
+    return "[local %r %r | remote %r %r]" % (g(0, "_oid"), g(0, "_path"), g(1, "_oid"), g(1, "_path"))
 
-            def userop():
-                side = rng.choice([0, 1])
-                p, root = (lp, rp)[side], ("/local", "/remote")[side]
-                kind = rng.choice(["create", "create", "upload", "rename", "delete", "mkdir", "create_in", "touch", "touch", "touch"])
-                what = kind
-                try:
-                    if kind == "create":
-                        path, data = root + "/" + rng.choice(names), ("v%d" % rng.randrange(1000)).encode()
-                        what = "create(%r, %r)" % (path, data)
-                        p.create(path, io.BytesIO(data))
-                    elif kind == "create_in":
-                        path, data = root + "/" + rng.choice(names) + "/" + rng.choice(names), b"w%d" % rng.randrange(1000)
-                        what = "create(%r, %r)" % (path, data)
-                        p.create(path, io.BytesIO(data))
-                    elif kind == "mkdir":
-                        path = root + "/" + rng.choice(names)
-                        what = "mkdir(%r)" % path
-                        p.mkdir(path)
-                    else:
-                        es = sorted(p.listdir_path(root), key=lambda x: x.path)
-                        if not es:
-                            return
-                        e = rng.choice(es)
-                        if kind == "upload" and e.otype == FILE:
-                            data = ("u%d" % rng.randrange(1000)).encode()
-                            what = "upload(<%s>, %r)" % (e.path, data)
-                            p.upload(e.oid, io.BytesIO(data))
-                        elif kind == "touch" and e.otype == FILE:
-                            buf = io.BytesIO()
-                            p.download(e.oid, buf)
-                            what = "upload(<%s>, <same content>)" % e.path
-                            p.upload(e.oid, io.BytesIO(buf.getvalue()))
-                        elif kind == "rename":
-                            to = root + "/" + rng.choice(names)
-                            what = "rename(<%s>, %r)" % (e.path, to)
-                            p.rename(e.oid, to)
-                        elif kind == "delete":
-                            what = "delete(<%s>)" % e.path
-                            p.delete(e.oid)
-                    hist.append("%s.%s" % (("local", "remote")[side], what))
-                except CloudException as ex:
-                    hist.append("%s.%s!%s" % (("local", "remote")[side], what, type(ex).__name__))
-            for _step in range(rng.randint(5, 40)):
-                if rng.random() < 0.5:
-                    userop()
-                r = rng.random()
-                which = "local-events.do" if r < 0.4 else ("remote-events.do" if r < 0.8 else "sync.do")
-                try:
-                    (cs.emgrs[0] if which[0] == "l" else cs.emgrs[1] if which[0] == "r" else cs.smgr).do()
-                except Exception as ex:  # noqa
-                    which += "!" + type(ex).__name__
-                hist.append(which)
-                if C.violation:
-                    return {"statement": "after every step storage holds exactly the live entries (engine run)", "flavour (oid_is_path l,r)": fl,
-                            "history": hist, "failure": C.violation}
-            for _k in range(25):
-                try:
-                    cs.do()
-                except Exception as ex:  # noqa
-                    hist.append("do!" + type(ex).__name__)
-                if C.violation:
-                    return {"statement": "after every step storage holds exactly the live entries (engine run)", "flavour (oid_is_path l,r)": fl,
-                            "history": hist + ["run-to-quiet"], "failure": C.violation}
+
+# ------------------------------------------------------------------------------------------------ engine tie
+
+class EntryTracker:
+    """numbers the SyncEntry objects per owning SyncState (creation order)"""
+    def __init__(self, R):
+        self.R = R
+        self.by_state = {}
+        self.capture = None
+
+    def __enter__(self):
+        R, T = self.R, self
+        self.saved = R.SyncEntry.__init__
+        o_init = self.saved
+
+        def init(s, parent, *a, **kw):
+            o_init(s, parent, *a, **kw)
+            if T.capture is not None:
+                T.capture.append(s)
+            else:
+                T.by_state.setdefault(id(parent), []).append(s)
+        R.SyncEntry.__init__ = init
+        return self
+
+    def __exit__(self, *a):
+        self.R.SyncEntry.__init__ = self.saved
+
+    def ents(self, st):
+        return self.by_state.get(id(st), [])
+
+
+ENGINE_FAMILIES = ["ordinary", "public-walk", "startup-walk", "restart-nocursor", "walk-fault", "walk-stop", "events-stop"]
+
+
+class EngineRun:
+    """One deterministic engine history (harness/engine.py World: two mock providers, CloudSync stepped manually) with the
+    C08 statements evaluated on the implementation after EVERY single step:
+      * an intake step ('L'/'R') always, and a sync step ('S') that returns normally, ends with an empty dirty set
+        (`intake_step_commits`; a sync step that ends in backoff has punted without a commit: state.py/manager.py as they are)
+      * the decoded rows of the tag are exactly the live non-trash entries (`commit_makes_storage_exact`)
+      * a state rebuilt from storage has the same entries, lookups and (loader-rule) pending set (`reload_equiv_entries` …)
+    Walk delivery is part of the histories: `cs.walk(side)` with the provider's own events suppressed, start-up walks, a new
+    engine over storage whose cursor row was removed, walks cut short by a temporary error or a stop, event delivery cut
+    short by a stop."""
+
+    def __init__(self, R, tracker, flavour, storage, rng):
+        import engine as E
+        self.R, self.T, self.E = R, tracker, E
+        self.flavour, self.storage_kind, self.rng = flavour, storage, rng
+        self.w = E.World(flavour=flavour, storage=storage)
+        self.trace = []
+        self.steps = 0
+        self.skipped_dirty = 0
+        self.dirty_but_equal = 0
+        self.tag = self.w.cs.state._tag
+        self.next = 0
+
+    def close(self):
+        try:
+            self.w.close()
+        except Exception:  # noqa
+            pass
+
+    # -- actions
+    def user(self, side, op, *args):
+        r = self.w.user(side, op, *args)
+        self.trace.append("%s.%s(%s)%s" % (("local", "remote")[side], op, ", ".join(repr(a) for a in args), "!" + r if r else ""))
+        return r
+
+    def fresh(self):
+        self.next += 1
+        return b"v%d" % self.next
+
+    def random_user_op(self, side=None):
+        rng, w = self.rng, self.w
+        side = rng.choice([0, 1]) if side is None else side
+        root = w.roots[side]
+        tree = w.tree(side)
+        files = sorted(k for k, v in tree.items() if v[0] == "f")
+        dirs = sorted(k for k, v in tree.items() if v[0] == "d")
+        kind = rng.choice(["create", "create", "create", "mkdir", "write", "rename", "delete", "create_in"])
+        name = rng.choice(["a", "b", "c.txt", "d"])
+        if kind == "create":
+            return self.user(side, "create", root + "/" + name, self.fresh())
+        if kind == "create_in" and dirs:
+            return self.user(side, "create", root + rng.choice(dirs) + "/" + name, self.fresh())
+        if kind == "mkdir":
+            return self.user(side, "mkdir", root + (rng.choice(dirs) if dirs and rng.random() < 0.3 else "") + "/" + name)
+        if kind == "write" and files:
+            return self.user(side, "write", root + rng.choice(files), self.fresh())
+        if kind == "rename" and (files or dirs):
+            src = rng.choice(files + dirs)
+            return self.user(side, "rename", root + src, root + "/" + name)
+        if kind == "delete" and files:
+            return self.user(side, "delete", root + rng.choice(files))
+        return self.user(side, "create", root + "/" + name, self.fresh())
+
+    def mute(self, side):
+        """suppress the provider's own events: move its cursor to the latest position"""
+        p = self.w.provs[side]
+        p._cursor = p._latest_cursor
+        self.trace.append("%s: provider cursor moved to latest (its pending events are dropped)" % ("local", "remote")[side])
+
+    def public_walk(self, side):
+        self.w.by = "engine"
+        try:
+            self.w.cs.walk(side)
+        finally:
+            self.w.by = "user"
+        self.trace.append("cs.walk(%s)" % ("LOCAL" if side == 0 else "REMOTE" if side == 1 else "None"))
+
+    def restart(self, del_cursor_side=None):
+        self.w.drop_engine()
+        if del_cursor_side is not None:
+            st = self.w.make_storage()
+            n = 0
+            for tg, rows in list(st.read_all().items()):
+                if "_cursor" in tg and tg.startswith(("mock-l", "mock-r")[del_cursor_side]):
+                    for k in list(rows):
+                        st.delete(tg, k)
+                        n += 1
+            if hasattr(st, "close"):
+                st.close()
+            self.trace.append("engine stopped; %d cursor row(s) of the %s side removed from storage" % (n, ("local", "remote")[del_cursor_side]))
+        else:
+            self.trace.append("engine stopped")
+        return "new engine over the same storage"
+
+    def start(self):
+        self.w.new_engine()
+        self.trace.append("new engine over the same storage")
+
+    def cut_walk(self, side, k, how):
+        """the next walk_oid of that provider raises CloudTemporaryError / sets the stop flag after k items"""
+        from cloudsync.exceptions import CloudTemporaryError
+        p = self.w.provs[side]
+        em = self.w.cs.emgrs[side]
+        orig = p.walk_oid
+        run = self
+
+        def walk_oid(oid, recursive=True):
+            n = 0
+            for ev in orig(oid, recursive=recursive):
+                if n >= k:
+                    p.walk_oid = orig
+                    if how == "fault":
+                        raise CloudTemporaryError("injected: walk interrupted")
+                    em._Runnable__stopped = True
+                    run.to_unstop = em
+                yield ev
+                n += 1
+            p.walk_oid = orig
+        p.walk_oid = walk_oid
+        self.trace.append("%s: the next walk %s after %d item(s)" % (("local", "remote")[side], "raises CloudTemporaryError" if how == "fault" else "sees a stop request", k))
+
+    def cut_events(self, side, k):
+        p = self.w.provs[side]
+        em = self.w.cs.emgrs[side]
+        orig = p.events
+        run = self
+
+        def events():
+            n = 0
+            for ev in orig():
+                yield ev
+                n += 1
+                if n >= k:
+                    em._Runnable__stopped = True
+                    run.to_unstop = em
+            p.events = orig
+        p.events = events
+        self.trace.append("%s: a stop request arrives after %d delivered event(s)" % (("local", "remote")[side], k))
+
+    to_unstop = None
+
+    def step(self, which):
+        """one engine step, then the statements; returns a failure text or None"""
+        out = self.w.step(which)
+        if self.to_unstop is not None:
+            self.to_unstop._Runnable__stopped = False
+            self.to_unstop = None
+        self.steps += 1
+        self.trace.append({"L": "local-events.do()", "R": "remote-events.do()", "S": "sync.do()"}[which] + ("" if out is None else " -> " + out))
+        return self.check(which, out)
+
+    def check(self, which, out):
+        R, st = self.R, self.w.cs.state
+        if st._storage is None:
+            return None
+        ents = self.T.ents(st)
+        bad = rows_vs_live_engine(R, st, ents)
+        if bad:
+            if which == "S" and out is not None and st._dirtyset:
+                self.skipped_dirty += 1            # a sync step that ended in backoff punted without a commit
+                return None
+            if st._dirtyset:
+                bad += " — %d entr%s still waiting in the dirty set after the step (no storage_commit reached them): %s" % (
+                    len(st._dirtyset), "y is" if len(st._dirtyset) == 1 else "ies are", ", ".join(describe_entry(e) for e in list(st._dirtyset)[:4]))
+            return bad
+        if st._dirtyset:
+            self.dirty_but_equal += 1              # dirty entries whose serialisation equals their row: not a violation
+        reader = self.w.make_storage()
+        self.T.capture = []
+        try:
+            st2 = R.SyncState(self.w.provs, reader, st._tag)
+        finally:
+            loaded, self.T.capture = self.T.capture, None
+            if self.storage_kind == "sqlite" and hasattr(reader, "close"):
+                reader.close()
+        return reload_compare(R, ents, st2, loaded)
+
+    def steps_checked(self, seq):
+        for which in seq:
+            bad = self.step(which)
+            if bad:
+                return bad
         return None
 
+    def settle(self, cap):
+        n = 0
+        quiet = 0
+        while n < cap:
+            for which in self.rng.sample("LRS", 3):
+                bad = self.step(which)
+                n += 1
+                if bad:
+                    return bad
+            if not self.w.busy():
+                quiet += 1
+                if quiet >= 2:
+                    break
+            else:
+                quiet = 0
+        return None
+
+    # -- families
+    def run(self, family):
+        rng = self.rng
+        if family == "ordinary":
+            for _ in range(rng.randint(6, 18)):
+                if rng.random() < 0.5:
+                    self.random_user_op()
+                bad = self.step(rng.choice("LRSS"))
+                if bad:
+                    return bad
+            return self.settle(24)
+        if family == "public-walk":
+            bad = self.steps_checked("LRS")
+            if bad:
+                return bad
+            if rng.random() < 0.5:
+                for _ in range(rng.randint(0, 4)):
+                    self.random_user_op()
+                bad = self.settle(18)
+                if bad:
+                    return bad
+            side = rng.choice([0, 1])
+            for _ in range(rng.randint(1, 4)):
+                self.random_user_op(side)
+            self.mute(side)
+            if rng.random() < 0.3:
+                self.random_user_op(1 - side)
+                self.mute(1 - side)
+                self.public_walk(None)
+            else:
+                self.public_walk(side)
+            bad = self.steps_checked("LR" if side == 0 else "RL")
+            if bad:
+                return bad
+            return self.settle(18)
+        if family == "startup-walk":
+            for _ in range(rng.randint(1, 5)):
+                self.random_user_op()
+            self.mute(0)
+            self.mute(1)
+            bad = self.steps_checked(rng.choice(["LR", "RL", "LSR"]))
+            if bad:
+                return bad
+            return self.settle(18)
+        if family == "restart-nocursor":
+            for _ in range(rng.randint(0, 4)):
+                self.random_user_op()
+            bad = self.settle(18)
+            if bad:
+                return bad
+            side = rng.choice([0, 1])
+            self.restart(del_cursor_side=side)
+            for _ in range(rng.randint(1, 4)):
+                self.random_user_op(side)
+            self.mute(side)
+            self.start()
+            bad = self.steps_checked("LR" if side == 0 else "RL")
+            if bad:
+                return bad
+            return self.settle(18)
+        if family in ("walk-fault", "walk-stop"):
+            for _ in range(rng.randint(2, 6)):
+                self.random_user_op()
+            self.mute(0)
+            self.mute(1)
+            side = rng.choice([0, 1])
+            self.cut_walk(side, rng.randint(1, 3), "fault" if family == "walk-fault" else "stop")
+            bad = self.steps_checked("LR" if side == 0 else "RL")
+            if bad:
+                return bad
+            return self.settle(18)
+        if family == "events-stop":
+            bad = self.steps_checked("LRS")
+            if bad:
+                return bad
+            side = rng.choice([0, 1])
+            for _ in range(rng.randint(2, 5)):
+                self.random_user_op(side)
+            self.cut_events(side, rng.randint(1, 2))
+            bad = self.steps_checked("LR" if side == 0 else "RL")
+            if bad:
+                return bad
+            return self.settle(18)
+        raise HarnessError("family " + family)
+
+
+def engine_tie(R, rng, nruns, budget_s=None):
+    """runs `nruns` engine histories round-robin over families x flavours x storages; returns (failure or None, stats)"""
+    import engine as E
+    stats = {"runs": 0, "steps_checked": 0, "sync_steps_in_backoff_with_dirty_entries_skipped": 0, "families": {}, "flavours": {}, "storages": {}}
+    flavours = sorted(E.FLAVOURS)
+    t0 = time.time()
+    with EntryTracker(R) as T:
+        for n in range(nruns):
+            if budget_s is not None and time.time() - t0 > budget_s:
+                break
+            fam = ENGINE_FAMILIES[n % len(ENGINE_FAMILIES)]
+            fl = flavours[(n // len(ENGINE_FAMILIES) + rng.randrange(len(flavours))) % len(flavours)]
+            sk = "sqlite" if rng.random() < 0.4 else "mock"
+            run = EngineRun(R, T, fl, sk, rng)
+            try:
+                bad = run.run(fam)
+            except HarnessError:
+                raise
+            finally:
+                run.close()
+            stats["runs"] += 1
+            stats["steps_checked"] += run.steps
+            stats["sync_steps_in_backoff_with_dirty_entries_skipped"] += run.skipped_dirty
+            for k, v in (("families", fam), ("flavours", fl), ("storages", sk)):
+                stats[k][v] = stats[k].get(v, 0) + 1
+            T.by_state.clear()
+            if bad:
+                return {"statement": "after every event-intake step and every sync step storage holds exactly the live entries and a "
+                                     "state rebuilt from it is equivalent (engine run)", "family": fam, "flavour": fl, "storage": sk,
+                        "history": run.trace, "failure": bad}, stats
+    return None, stats
 
 
 PINNED_FP = {
@@ -1421,10 +1678,19 @@ PINNED_FP = {
  "cloudsync/sync/state.py:SyncState.storage_commit": "3b103294ab9aee22",
  "cloudsync/sync/state.py:SyncState._storage_update": "0372cec96b08e674",
  "cloudsync/sync/state.py:SyncState.update": "a9e12218df84da09",
- "cloudsync/sync/state.py:SyncState.update_entry": "3329d7262275b71c",
+ "cloudsync/sync/state.py:SyncState.update_entry": "ec2209ba081d1604",
  "cloudsync/sync/state.py:SyncState.mark_changed": "af5c6b2283cb90b4",
  "cloudsync/types.py:OType": "7587040bd2d1a00c",
  "cloudsync/types.py:IgnoreReason": "4550da71db5b9962",
+ "cloudsync/event.py:EventManager._process_event": "5059ad75f98bb423",
+ "cloudsync/event.py:EventManager._do_unsafe": "4c084dda0bf3dcc0",
+ "cloudsync/event.py:EventManager._do_walk_if_needed": "4fbba31d51d53366",
+ "cloudsync/event.py:EventManager._do_first_init": "c7c0259e3f9687e9",
+ "cloudsync/event.py:EventManager.do": "be11d0da3c66542a",
+ "cloudsync/event.py:EventManager.queue": "b1469ef2ad120f6a",
+ "cloudsync/cs.py:CloudSync.walk": "1ba5625ea5fc084d",
+ "cloudsync/sync/manager.py:SyncManager.do": "b15c541bee283dae",
+ "cloudsync/sync/manager.py:SyncManager._sync_one_entry": "d8adc129233e60fa",
 }
 
 TABLE = {"rows": [], "audited": []}
@@ -1501,17 +1767,21 @@ def run(res, tier, seed, proof_broken, replay):
                 sout[k] = sout.get(k, 0) + v
             sghost[be] = g
             samples.append({"backend": be, "ops": [x for x in l[:40] if x != "dump"][:12]})
-        distinct = len(set(cl)) + len({(a, b[:200] if b else None) for a, b in zip(sl.get("x", []), [])})
+        ehit, estats = engine_tie(R, rng_for(seed, "c08engine"), 1500 if tier == "thorough" else (600 if changed_fp else 280))
         res.coverage.update({
-            "evaluations": len(cl) + total_lines + len(kl), "programs": n_codec + 2 * nseq + len(CORPUS),
+            "evaluations": len(cl) + total_lines + len(kl) + estats["steps_checked"], "programs": n_codec + 2 * nseq + len(CORPUS) + estats["runs"],
             "distinct_nontrivial": len({ln for ln, r in zip(cl, cr) if not (r.startswith("err TypeError"))}) + sum(
                 v for k, v in sout.items() if k.split(":")[0] in ("ws", "we", "commit", "reload", "lo", "lp")),
             "rule": "codec: distinct generated (operation, value) lines that get past the outermost shape check (deser of current/legacy/odd "
                     "dicts, row of generated entries, full round trips); state: hooked writes / entry writes / commits / reloads / lookups "
-                    "executed on a real SyncState (MockStorage and SqliteStorage on a temp file) with the whole state compared after each",
+                    "executed on a real SyncState (MockStorage and SqliteStorage on a temp file) with the whole state compared after each; "
+                    "engine tie: deterministic CloudSync histories (harness/engine.py World; families ordinary / public-walk / startup-walk / "
+                    "restart-nocursor / walk-fault / walk-stop / events-stop over all flavours and both storages) with rows-vs-live-entries "
+                    "and reload equivalence evaluated after every single step",
             "samples": [{"codec": cl[0][:300], "result": cr[0][:300]}] + samples,
             "disagreements_checked": len(cd) + len(sd) + len(kd),
             "codec_case_histogram": chist, "codec_outcome_histogram": cout, "state_op_histogram": sstats, "state_outcome_histogram": sout,
+            "engine_tie": estats,
             "state_lines": total_lines, "unmodelled": sunm, "model_ghost_activity": sghost, "corpus_lines": len(kl),
             "fingerprints": fps, "fingerprints_changed": changed_fp, "escalated": bool(changed_fp) and tier == "quick",
             "stale_known_findings": stale, "model_facts_confirmed_on_code": facts,
@@ -1532,6 +1802,8 @@ def run(res, tier, seed, proof_broken, replay):
             broken.append("correspondence codec: %d disagreements, first %r" % (len(cd), {k: cd[0][k] for k in ("line", "implementation", "model")}))
         if kd:
             broken.append("correspondence persist/corpus: %r" % (kd[0],))
+        if ehit:
+            broken.append("engine tie (%s, %s, %s): %s" % (ehit["family"], ehit["flavour"], ehit["storage"], ehit["failure"][:400]))
         if sd:
             broken.append("correspondence %s: sequence %r implementation %s model %s" % (sd[0]["layer"], [x for x in sd[0]["sequence"] if x != "dump"][-25:],
                                                                                         sd[0]["implementation"][:400], sd[0]["model"][:400]))
@@ -1545,9 +1817,11 @@ def run(res, tier, seed, proof_broken, replay):
                     if hit:
                         break
             if not hit:
-                hit = oracle_engine(R, rng_for(seed, "c08engine"), 220 if tier == "quick" else 700)
-            if not hit:      # widen: a second, independent stream
-                hit = oracle_engine(R, rng_for(seed + 7919, "c08engine-wide"), 300 if tier == "quick" else 1000)
+                hit = ehit
+            if not hit:      # widen: more engine histories, independent streams
+                hit, _ = engine_tie(R, rng_for(seed, "c08engine-search"), 400 if tier == "quick" else 2000)
+            if not hit:
+                hit, _ = engine_tie(R, rng_for(seed + 7919, "c08engine-wide"), 600 if tier == "quick" else 3000)
             if hit:
                 res.violation({"property": PID, "kind": "C08 statement fails on the implementation", "failing": hit, "broken": broken})
             else:
@@ -1574,7 +1848,9 @@ if __name__ == "__main__" and os.environ.get("C08_DEBUG"):
             print("roundtrip", oracle_roundtrip(R, rng, 1500))
             for be in ("mock", "sqlite"):
                 print("state", be, oracle_state(R, rng, be, 300, 40, tmp))
-            print("engine", oracle_engine(R, rng_for(seed_from_env(), "c08engine"), 250))
+            t0 = time.time()
+            hit, est = engine_tie(R, rng_for(seed_from_env(), "c08engine"), int(os.environ.get("C08_ENGINE_RUNS", "56")))
+            print("engine", hit, est, "%.1fs" % (time.time() - t0))
             print("corpus", run_corpus(R, tmp)[1])
             for k, f in KNOWN.items():
                 print(k, f(R, tmp))
